@@ -110,3 +110,68 @@ func VerifCompiledPattern(r *NetworkRule) string {
 	}
 	return p
 }
+
+// VerifModifierValues renders the parsed modifier values of r (for the native cross-check of C04).
+func VerifModifierValues(r *NetworkRule) map[string][]string {
+	out := map[string][]string{}
+	if r.enabledOptions&OptionThirdParty != 0 {
+		out["tp"] = append(out["tp"], "third-party")
+	}
+	if r.disabledOptions&OptionThirdParty != 0 {
+		out["tp"] = append(out["tp"], "~third-party")
+	}
+	for _, t := range verifTypeNames {
+		if r.permittedRequestTypes&t.bit != 0 {
+			out["type"] = append(out["type"], t.name)
+		}
+		if r.restrictedRequestTypes&t.bit != 0 {
+			out["type"] = append(out["type"], "~"+t.name)
+		}
+	}
+	for _, d := range r.permittedDomains {
+		out["domain"] = append(out["domain"], d)
+	}
+	for _, d := range r.restrictedDomains {
+		out["domain"] = append(out["domain"], "~"+d)
+	}
+	for _, d := range r.denyAllowDomains {
+		out["denyallow"] = append(out["denyallow"], d)
+	}
+	for _, t := range r.permittedDNSTypes {
+		out["dnstype"] = append(out["dnstype"], verifRRName(t))
+	}
+	for _, t := range r.restrictedDNSTypes {
+		out["dnstype"] = append(out["dnstype"], "~"+verifRRName(t))
+	}
+	for _, t := range r.permittedClientTags {
+		out["ctag"] = append(out["ctag"], t)
+	}
+	for _, t := range r.restrictedClientTags {
+		out["ctag"] = append(out["ctag"], "~"+t)
+	}
+	if c := r.permittedClients; c != nil {
+		for _, h := range c.hosts {
+			out["client"] = append(out["client"], h)
+		}
+		for _, n := range c.nets {
+			out["client"] = append(out["client"], verifNetText(n))
+		}
+	}
+	if c := r.restrictedClients; c != nil {
+		for _, h := range c.hosts {
+			out["client"] = append(out["client"], "~"+h)
+		}
+		for _, n := range c.nets {
+			out["client"] = append(out["client"], "~"+verifNetText(n))
+		}
+	}
+	return out
+}
+
+// verifNetText renders a prefix the way the grammar writes it: a bare address for a full-length prefix.
+func verifNetText(n netip.Prefix) string {
+	if n.Bits() == n.Addr().BitLen() {
+		return n.Addr().String()
+	}
+	return n.String()
+}
